@@ -523,11 +523,29 @@ l2!(c02_create_r1r1, 6, { body_create([Kind::Region, Kind::Region], [1, 1]); });
 // ---------------------------------------------------------------------------------------------
 // C18 (the part that is code): open_with_min_len on the fs model.  A refused open (either file
 // locked by another holder) has modified nothing; the data file is locked before it may be resized.
+/// `Path::file_name` parses components with a byte-level state machine; the database's display name is
+/// not part of the property.
+fn c18_file_name_stub(_p: &std::path::Path) -> Option<&std::ffi::OsStr> {
+    None
+}
+/// `Path::join`: the fs model identifies a file by the last bytes of its path, so the joined path is
+/// represented by its last component ("data" / "regions").
+fn c18_join_stub<P: AsRef<std::path::Path>>(_s: &std::path::Path, p: P) -> std::path::PathBuf {
+    p.as_ref().to_path_buf()
+}
+/// `Regions::fill` runs after both locks are held and only reads the (here empty) regions file; slot
+/// decoding is decided by the C17 harnesses.
+fn c18_fill_stub(_r: &mut crate::regions::Regions, _db: &Database) -> Result<()> {
+    Ok(())
+}
 #[kani::proof]
 #[kani::unwind(9)]
 #[kani::stub(alloc::fmt::format, stubs::format_stub)]
 #[kani::stub(crate::Database::sync_bg_tasks, crate::verif_root::sync_bg_tasks_stub)]
-#[kani::stub(<[u8]>::to_vec, stubs::to_vec_stub)]
+#[kani::stub(<[u8]>::to_vec, stubs::to_vec_stub8)]
+#[kani::stub(std::path::Path::file_name, c18_file_name_stub)]
+#[kani::stub(std::path::Path::join, c18_join_stub)]
+#[kani::stub(crate::regions::Regions::fill, c18_fill_stub)]
 fn c18_open_refusal_has_no_effect() {
     let data_len: usize = kani::any();
     let min_len: usize = kani::any();
@@ -540,6 +558,7 @@ fn c18_open_refusal_has_no_effect() {
         fs.files[pfs::DATA].locked_elsewhere = data_locked;
         fs.files[pfs::REGIONS].len = 0; // no metadata slots: fill() and Layout::from are trivial
         fs.files[pfs::REGIONS].locked_elsewhere = regions_locked;
+        fs.open_seq = 0; // first open = data file, second = regions file
     }
     ghost::clear();
     let res = Database::open_with_min_len(std::path::Path::new("d"), min_len);
